@@ -18,10 +18,31 @@ type Gen struct {
 
 // n draws a list length in 1..k (1..3k in the thorough tier).
 func (g *Gen) n(k int) int {
+	// now and then a long list: size thresholds (insertion sort below 12 elements, a parallel
+	// path above N, a fast path for short inputs) are where behaviour changes
+	big := 40
+	if g.Deep {
+		big = 12
+	}
+	if g.R.Chance(1, big) {
+		return 25 + g.R.Intn(70)
+	}
 	if g.Deep && g.R.Chance(1, 2) {
 		return 1 + g.R.Intn(3*k)
 	}
 	return 1 + g.R.Intn(k)
+}
+
+// huge draws a very long list length (hundreds), rarely.
+func (g *Gen) huge() int {
+	big := 60
+	if g.Deep {
+		big = 20
+	}
+	if g.R.Chance(1, big) {
+		return 500 + g.R.Intn(700)
+	}
+	return 0
 }
 
 // cap is the bound on the size of an expansion.
@@ -98,8 +119,15 @@ func (g *Gen) cluster(hz, vz int64, n int) []string {
 		bx = g.R.Range(0, min64(m-1, 1)) // near the wrap-around column
 	}
 	ids := make([]string, 0, n)
+	sp := int64(2)
+	if n > 20 {
+		sp = 4
+	}
+	if n > 200 {
+		sp = 9
+	}
 	for i := 0; i < n; i++ {
-		dx, dy, dz := g.R.Range(-2, 2), g.R.Range(-2, 2), g.R.Range(-2, 2)
+		dx, dy, dz := g.R.Range(-sp, sp), g.R.Range(-sp, sp), g.R.Range(-2, 2)
 		ids = append(ids, extID(hz, mod(bx+dx, m), mod(by+dy, m), vz, bz+dz))
 	}
 	return ids
